@@ -2726,6 +2726,31 @@ def _final_rhs(a):
 
 # ---- TAB21 hex digit table --------------------------------------------------------------------------------------------------
 
+_const_tables = {}
+
+
+def _const_table(u, ref):
+    """values of a const array of the unit (file scope or static local) with a constant initialiser, else None"""
+    key = (id(u), ref.get('d'))
+    if key in _const_tables:
+        return _const_tables[key]
+    out = None
+    for g in list(u.globals) + [d for (_f, d) in u.static_locals()]:
+        if g.get('d') != ref.get('d'):
+            continue
+        t = u.ty(g['ty'])
+        if t['c'] == 'array' and 'init' in g and (g.get('const') or t.get('const')):
+            ini = strip_casts(g['init'])
+            if ini.get('k') == 'str':
+                out = list(ini['bytes']) + [0]
+            elif ini.get('k') == 'initlist' and all(const_val(i) is not None for i in ini['inits']):
+                out = [const_val(i) for i in ini['inits']]
+                if t.get('count') and len(out) < t['count']:
+                    out += [0] * (t['count'] - len(out))
+    _const_tables[key] = out
+    return out
+
+
 def _evalb(e, b, env, u, src_ok):
     """Value of a pure integer expression as a function of the current input byte b (None = not evaluable)."""
     e0 = e
@@ -2737,7 +2762,15 @@ def _evalb(e, b, env, u, src_ok):
         return v
     k = e.get('k')
     val = None
-    if k in ('idx', 'un') and access(e) is not None and src_ok(access(e)[0]):
+    if k == 'idx' and strip_casts(e['b']).get('k') == 'ref' and strip_casts(e['b']).get('dk') not in ('local', 'param') and \
+            _const_table(u, strip_casts(e['b'])) is not None:
+        # a lookup in a constant table of the unit, indexed by something that depends on the byte
+        tb = _const_table(u, strip_casts(e['b']))
+        i_ = _evalb(e['i'], b, env, u, src_ok)
+        if i_ is None or not (0 <= i_ < len(tb)):
+            return None
+        val = tb[i_]
+    elif k in ('idx', 'un') and access(e) is not None and src_ok(access(e)[0]):
         val = b
         # the byte as the type it is read through sees it: a plain (signed) char turns 0x80..0xFF into negative values
         t_own = u.ty(e.get('ty0', e.get('ty'))) if ('ty0' in e or 'ty' in e) else {}
